@@ -1,5 +1,7 @@
 import AwModel.Query.Pipeline
 import AwModel.Query.RegistryGen
+import AwModel.Query.Reference
+import AwProofs.Lemmas.Group
 /-!
 # Lemmas for `AwModel/Query/Pipeline.lean`: events survive the encoding into query values, and each
 # modelled builtin, called through the registry's call protocol, is its transform model
@@ -51,5 +53,39 @@ theorem decStr_enc (s : String) : decStr (Val.str s.toList) = some s := by simp 
 @[simp] theorem typeOk_list_list (xs : List Val) : typeOk .list (.list xs) = true := rfl
 @[simp] theorem typeOk_str_str (s : Str) : typeOk .str (.str s) = true := rfl
 @[simp] theorem typeOk_int_int (i : Int) : typeOk .int (.int i) = true := rfl
+
+theorem sumDurations_eq_durSum (l : List Event) : sumDurations l = AwProofs.Group.durSum l := by
+  unfold sumDurations
+  have h : ∀ (l : List Event) (acc : Int), (l.map (·.dur)).foldl (· + ·) acc = acc + AwProofs.Group.durSum l := by
+    intro l
+    induction l with
+    | nil => intro acc; simp [AwProofs.Group.durSum]
+    | cons e r ih => intro acc; simp only [List.map_cons, List.foldl_cons, AwProofs.Group.durSum, ih]; omega
+  simpa using h l 0
+
+
+theorem denoteList_strs (reg : List Entry) (apply : Apply) (ns : Ns) (keys : List String) :
+    denoteList reg apply ns (keys.map fun k => Expr.str k.toList) = .ok (keys.map fun s => Val.str s.toList) := by
+  induction keys with
+  | nil => rfl
+  | cons k r ih => simp [denoteList, denote, ih, Except.bind, Except.map]
+
+
+theorem get_set_self (ns : Ns) (k : Str) (v : Val) : (ns.set k v).get? k = some v := by
+  induction ns with
+  | nil => simp [Ns.set, Ns.get?]
+  | cons p r ih =>
+    obtain ⟨k', v'⟩ := p
+    by_cases h : k' = k
+    · simp [Ns.set, Ns.get?, h]
+    · simp [Ns.set, Ns.get?, h, ih]
+
+
+/-- a builtin that is none of the three datastore readers is called with the value-only bodies -/
+theorem callBuiltin_fullApply (r : Reads Data) (S E : Int) (other : Apply) (e : Entry) (args : List Val)
+    (hne : e.name ≠ nameQueryBucket ∧ e.name ≠ nameQueryBucketEventcount ∧ e.name ≠ nameFindBucket) :
+    callBuiltin (fullApply r S E other) e args = callBuiltin (pipeApply other) e args := by
+  simp [callBuiltin, callEntry, fullApply, dsApply, hne.1, hne.2.1, hne.2.2]
+
 
 end AwProofs.Pipeline
